@@ -83,6 +83,9 @@ func Assume(cond bool) {
 // Assert is the property: the engine asks the solver whether cond can be
 // false under the path condition.
 func Assert(cond bool, label string) {
+	if skipLabel(label) {
+		return
+	}
 	if !cond {
 		panic(assertFailed{label})
 	}
@@ -90,9 +93,22 @@ func Assert(cond bool, label string) {
 
 // AssertKF is Assert with a known-finding region (see DESIGN.md 2.7).
 func AssertKF(cond bool, label, kf string, region bool) {
+	if skipLabel(label) {
+		return
+	}
 	if !cond {
 		panic(assertFailed{label})
 	}
+}
+
+// skipLabel mirrors the engine: an assertion labelled for another property
+// ("Cnn ...") is not checked when the run is restricted to one property.
+func skipLabel(label string) bool {
+	p := st.file.Property
+	if p == "" || len(label) < 3 || label[0] != 'C' || label[1] < '0' || label[1] > '9' || label[2] < '0' || label[2] > '9' {
+		return false
+	}
+	return !strings.HasPrefix(label, p)
 }
 
 func Cover(label string)   {}
